@@ -708,7 +708,7 @@ fn scenario_names(kind: usize, len: usize) -> (u64, Vec<V>) {
             // container's 16-bit units each
             let astral: String = "\u{1F600}".repeat((len + 1) / 2);
             let mixed: String = format!("{}{}", "\u{1F600}".repeat(len / 4), "-".repeat(len - 2 * (len / 4)));
-            for (cls, name, within) in [("packable", "s".repeat(len), len <= 62), ("unpackable", "-".repeat(len), len <= 31), ("astral", astral, 2 * ((len + 1) / 2) <= 31), ("astral-and-ascii", mixed, len <= 31)] {
+            for (cls, name, within) in [("packable", "s".repeat(len), len <= 62), ("unpackable", "-".repeat(len), len <= 31), ("astral", astral, 2 * ((len + 1) / 2) <= 31), ("astral-and-ascii", mixed, len <= 31), ("three-byte-characters", "\u{4e2d}".repeat(len), len <= 31), ("three-byte-characters-and-ascii", format!("{}.dat", "\u{6587}".repeat(len.saturating_sub(4).max(1))), len.saturating_sub(4).max(1) + 2 <= 31)] {
                 steps += 1;
                 let mut h = Harness::create(0).expect("create");
                 let before = snapshot(h.p()).ok();
